@@ -273,16 +273,11 @@ func c03Hostiles(c *Ctx, d *Decl, b *Built) {
 				}
 				continue
 			}
-			if a.IsRest() {
-				for i := 0; i < a.Val.Len(); i++ {
-					if !tokset[a.Val.Index(i).String()] {
-						c.Violate("hostile:positional-invented", "positional %s holds %q which is not an input token", a.DisplayName(), a.Val.Index(i).String())
-						return
-					}
+			for _, s := range posStrings(a) {
+				if !tokset[s] {
+					c.Violate("hostile:positional-invented", "positional %s holds %q which is not an input token", a.DisplayName(), s)
+					return
 				}
-			} else if s := a.Val.String(); s != "" && !tokset[s] {
-				c.Violate("hostile:positional-invented", "positional %s holds %q which is not an input token", a.DisplayName(), s)
-				return
 			}
 		}
 	}
